@@ -1,12 +1,14 @@
 //! vk: conformance drivers for the in-memory kernels (arrow-select/arith/ord/cast/string/row/buffer).
 //! `vk <driver> --tier quick|thorough --seed N --out DIR`
 mod c03;
+mod c03replay;
 
 fn main() {
     let args = vcore::Args::parse();
     vcore::quiet_panics();
     match args.driver.as_str() {
         "c03" => c03::run(&args),
+        "c03replay" => c03replay::run(&args),
         other => {
             eprintln!("unknown driver {other}");
             std::process::exit(2);
